@@ -17,3 +17,9 @@ Definition sms_reader_dec_is (data : bytes) (sched : list nat) (eofd : bool) (na
   | Ok (n, vs) => String.eqb n name && ovals_eqb vs ovs
   | _ => false
   end.
+
+(* decode from the reader, then re-encode what was decoded (sms_remarshal behind the reader) *)
+Definition sms_remarshal_reader (data : bytes) (sched : list nat) (eofd : bool) : outcome bytes :=
+  do p <- sms_unmarshal_reader data sched eofd; sms_marshal p.
+Definition sms_reader_enc_is (data : bytes) (sched : list nat) (eofd : bool) (out : bytes) : bool :=
+  match sms_remarshal_reader data sched eofd with Ok o => beq_bytes o out | _ => false end.
